@@ -24,11 +24,13 @@ RULE = (
     "identical observations and identical log; action or built-in-callback fault -> identical configurations, status, "
     "transitions, events, and an action log equal to the twin's minus one contiguous block that starts at the faulted "
     "action and lies inside its own (innermost) action list, context equal modulo counters assigned by the skipped "
-    "remainder, on_action_error called once for it. Campaign abort: machines with one injected aborting feature "
+    "remainder, on_action_error called once for it; then the on_action_error hook reporting that fault is made to raise "
+    "too (a site that exists only in the faulted run) and nothing may change relative to the single-fault run. Campaign abort: machines with one injected aborting feature "
     "(unimplemented action at a drawn list position, unregistered service, unresolvable target, async action under the "
     "sync engine) plus timer templates; oracle: error is an XStateMachineError subclass raised by sync send()/contained "
     "by async, configuration equals the one before the aborted transition, the next event is processed, an `after` "
-    "timer of a rolled-back state still fires. Non-trivial = fault inside a multi-state transition's entry/exit list or "
+    "timer of a rolled-back state still fires - exactly once, also when the abort struck in a child's exit list before "
+    "the timed/invoking parent was reached (async: its service keeps exactly one running instance). Non-trivial = fault inside a multi-state transition's entry/exit list or "
     "a nested expansion or during start(); distinct = distinct (case, fault plan)."
 )
 ASSUMPTIONS = [
@@ -279,6 +281,7 @@ def check_faults(case, res: CaseResult):
             if s not in chosen:
                 chosen.append(s)
     keys = []
+    n_report = 0
     for site in chosen:
         faulty = runf(spec, history, {"faults": [site[0]]})
         res.extra_evals += 1
@@ -286,6 +289,18 @@ def check_faults(case, res: CaseResult):
         nested = "/" in lid
         tagsfx = "nested" if nested else "plain"
         _judge_twin(engine, spec, free, faulty, site, where, res, tagsfx)
+        if site[1] in ("action", "callable") and n_report < 3 and not faulty.aborted:
+            # the report of that fault is itself a call into user code (on_action_error): make
+            # that hook raise as well; nothing may change relative to the single-fault run
+            n_report += 1
+            rerun = runf(spec, history, {"faults": [site[0]], "record_sites": True})
+            res.extra_evals += 1
+            hooks = [h for h in rerun.rec.sites if h[1] == "hook" and h[2] == "on_action_error" and h[0] > site[0]]
+            if hooks and not rerun.aborted:
+                both = runf(spec, history, {"faults": [site[0], hooks[0][0]]})
+                res.extra_evals += 1
+                _judge_twin(engine, spec, rerun, both, hooks[0], where, res, "report-of-" + site[1])
+                res.classes.append("fault:on_action_error-of-" + site[1])
         if site[1] in ("action", "callable") and (nested or lid.startswith(("entry:", "exit:"))):
             keys.append(case_fp([case_fp(case["spec"]), history, site[0]]))
         res.classes.append("fault:" + site[1] + (":nested" if nested else ""))
